@@ -227,4 +227,66 @@ def outsOf (k : Nat) : List (Nat × List Out) → List Out
   | [] => []
   | (k', o) :: l => if k' = k then o else outsOf k l
 
+/-! ## the owner of the calculator: `SamplePostprocessor.__call__` and the driver's sample buffer
+
+Only the throughput part.  The post-processor owns ONE calculator for the whole race and hands it every raw sample of
+the batch (the down-sampling factor applies to the latency / service-time records only); nothing of a sample but the
+fields in `TSample` reaches the calculator — in particular not `percent_completed` or the client id — and the
+per-task state is never dropped or reset between batches. -/
+
+/-- the `put_value_cluster_level(name="throughput", …)` calls of one batch: task by task in dictionary order -/
+def recordsOf (aggr : List (Nat × List Out)) : List (Nat × Out) :=
+  aggr.flatMap (fun ko => ko.2.map (fun o => (ko.1, o)))
+
+/-- `SamplePostprocessor.__call__(raw_samples)`: returns at once for an empty list, otherwise
+    `aggregates = self.throughput_calculator.calculate(raw_samples)` (default bucket of 1 s) and one record per tuple -/
+def postprocess (stats : List (Nat × TaskStats)) (raw : List (Nat × TSample)) :
+    List (Nat × TaskStats) × List (Nat × Out) :=
+  match raw with
+  | [] => (stats, [])
+  | _ :: _ =>
+    let r := calculate current 1 stats raw
+    (r.1, recordsOf r.2)
+
+/-- successive post-processing runs of one race -/
+def postprocessAll : List (Nat × TaskStats) → List (List (Nat × TSample)) →
+    List (Nat × TaskStats) × List (List (Nat × Out))
+  | stats, [] => (stats, [])
+  | stats, c :: cs =>
+    let r := postprocess stats c
+    let r2 := postprocessAll r.1 cs
+    (r2.1, r.2 :: r2.2)
+
+/-- what happens at the driver: a shipment of samples from a worker (`Driver.update_samples`) or a post-processing
+    run (`Driver.post_process_samples`: snapshot the buffer, empty it, post-process the snapshot) -/
+inductive DEvent where
+  | update (samples : List (Nat × TSample))
+  | postProcess
+
+/-- records written by each post-processing run; state = (`raw_samples` buffer, calculator) -/
+def driverRun (buf : List (Nat × TSample)) (stats : List (Nat × TaskStats)) :
+    List DEvent → (List (Nat × TSample) × List (Nat × TaskStats)) × List (List (Nat × Out))
+  | [] => ((buf, stats), [])
+  | .update samples :: evs => driverRun (buf ++ samples) stats evs
+  | .postProcess :: evs =>
+    let r := postprocess stats buf
+    let r2 := driverRun [] r.1 evs
+    (r2.1, r.2 :: r2.2)
+
+/-- the batches the events cut the shipped stream into -/
+def driverBatches (buf : List (Nat × TSample)) : List DEvent → List (List (Nat × TSample))
+  | [] => []
+  | .update samples :: evs => driverBatches (buf ++ samples) evs
+  | .postProcess :: evs => buf :: driverBatches [] evs
+
+/-- everything shipped, in arrival order -/
+def shipped : List DEvent → List (Nat × TSample)
+  | [] => []
+  | .update samples :: evs => samples ++ shipped evs
+  | .postProcess :: evs => shipped evs
+
+/-- the throughput records of task `k` among the records of one run -/
+def recsOf (k : Nat) (recs : List (Nat × Out)) : List Out :=
+  (recs.filter (fun r => r.1 == k)).map (·.2)
+
 end Throughput
